@@ -75,7 +75,7 @@ theorem newVariable_min {name : Name} {pk : Bool} {fc : Scope} {parents chain' :
     (h : newVariable true name pk (fc :: parents) = some (chain', nm)) :
     (∃ k, nm = shortName pk k) ∧ fc.vars.cnt nm = 0 ∧
       chain' = if pk then (fc :: parents).map (bump nm)
-               else { vars := fc.vars.set nm 1, locals := fc.locals ++ [nm] } :: parents := by
+               else { fc with vars := fc.vars.set nm 1, locals := fc.locals ++ [nm] } :: parents := by
   rw [newVariable] at h
   split at h
   · simp at h
@@ -251,7 +251,7 @@ theorem inv_req {st : NState} {name : Name} {pk : Bool} {c : List Scope} {nm : N
     | false =>
       simp only [Bool.false_eq_true, if_false] at hc ⊢
       subst hc
-      have hloc : chainLocals ({ vars := fc.vars.set nm 1, locals := fc.locals ++ [nm] } :: parents)
+      have hloc : chainLocals ({ fc with vars := fc.vars.set nm 1, locals := fc.locals ++ [nm] } :: parents)
           = fc.locals ++ nm :: chainLocals parents := by simp [chainLocals]
       have hold : chainLocals st.chain = fc.locals ++ chainLocals parents := by rw [hch]; rfl
       refine ⟨?_, ?_, ?_, ?_, ?_, ?_, ?_⟩
@@ -337,6 +337,36 @@ theorem inv_copy {st : NState} {fc : Scope} {parents : List Scope} (hi : Inv st)
     simp only [chainLocals, List.nil_append] at hn
     exact hi.locLower n (by rw [hch]; simpa [chainLocals] using hn)
 
+/-- recording a pointer-variable name touches neither `allVars` nor `localVars` -/
+theorem inv_recordPtr {st : NState} {c : List Scope} (v : Nat) (nm : Name) (hi : Inv { st with chain := c }) :
+    Inv { st with chain := recordPtr v nm c } := by
+  cases c with
+  | nil => simpa [recordPtr] using hi
+  | cons sc r =>
+    have hlc := hi.lc
+    refine ⟨by simpa [visible, recordPtr, chainLocals] using hi.nodup, ?_, ?_, ?_,
+      by simpa [visible, recordPtr, chainLocals] using hi.notres, hi.pkgUpper,
+      by simpa [recordPtr, chainLocals] using hi.locLower⟩
+    · intro n hn s hs
+      simp only [recordPtr, List.mem_cons] at hs
+      rcases hs with rfl | hs
+      · exact hi.pkg n hn sc (by simp)
+      · exact hi.pkg n hn s (by simp [hs])
+    · exact ⟨by simpa [chainLocals] using hlc.1, hlc.2⟩
+    · intro s hs
+      simp only [recordPtr, List.mem_cons] at hs
+      rcases hs with rfl | hs
+      · exact hi.res sc (by simp)
+      · exact hi.res s (by simp [hs])
+
+/-- REPAIRED DEFECT — reusing a name that the current context has not counted breaks the invariant at once -/
+theorem old_reuse_breaks (nm : Name) (fc : Scope) (ps : List Scope) (h0 : fc.vars.cnt nm = 0) :
+    ¬ LC (oldReusePtr nm (fc :: ps)) := by
+  intro h
+  have := h.1 nm (by simp [oldReusePtr, chainLocals])
+  simp [oldReusePtr] at this
+  omega
+
 theorem inv_step {st st' : NState} {op : Op} (hi : Inv st) (h : stepOp true st op = some st') : Inv st' := by
   cases op with
   | push fn =>
@@ -393,6 +423,24 @@ theorem inv_step {st st' : NState} {op : Op} (hi : Inv st) (h : stepOp true st o
       simp [hn] at h
       subst h
       exact (inv_req hi hn).1
+  | ptr v name =>
+    simp only [stepOp, varPtrName, Bool.false_eq_true, if_false] at h
+    cases hl : lookupPtr v st.chain with
+    | some nm =>
+      simp [hl] at h
+      subst h
+      exact hi
+    | none =>
+      simp only [hl] at h
+      cases hn : newVariable true (name ++ ptrSuffix) false st.chain with
+      | none => simp [hn] at h
+      | some p =>
+        obtain ⟨c, nm⟩ := p
+        simp [hn] at h
+        subst h
+        have := (inv_req hi hn).1
+        simp only [Bool.false_eq_true, if_false] at this
+        exact inv_recordPtr (st := st) v nm this
 
 theorem inv_run : ∀ (ops : List Op) (st st' : NState), Inv st → runOps true st ops = some st' → Inv st'
   | [], st, st', hi, h => by simp [runOps] at h; subst h; exact hi
